@@ -4,6 +4,8 @@ import (
 	"fmt"
 	"time"
 
+	"github.com/hugelgupf/p9/p9"
+
 	"verif/internal/ev"
 	"verif/internal/memfs"
 	"verif/internal/quiesce"
@@ -18,7 +20,7 @@ func init() {
 		Assume:  []string{"memfs computes each call's receiver path from Renamed notifications", "hard links are kept out of the workload", "one scenario at a time per shard process so that 'process parked' is meaningful"},
 		Shards:  shards(8, 16),
 		Timeout: timeout(8*time.Minute, 45*time.Minute),
-		Run:     func(c *ev.Ctx) { runMatrix(c, "C07"); c07DoubleOpen(c) },
+		Run:     func(c *ev.Ctx) { runMatrix(c, "C07"); c07DoubleOpen(c); c07SimultaneousFirstWalks(c) },
 	})
 }
 
@@ -289,6 +291,106 @@ func c07DoubleOpen(c *ev.Ctx) {
 				}
 			}
 			w.close()
+		}
+	}
+}
+
+// c07SimultaneousFirstWalks: K connections walk [d, fN] to a name nobody walked
+// to before, all released at the same instant from a gate in the first
+// component's Walk, so that they create the shared per-path state together.
+// Afterwards SetAttr through one of the fids is parked and GetAttr is issued
+// through all the others: every pair is on one path, so none may enter.
+func c07SimultaneousFirstWalks(c *ev.Ctx) {
+	const K = 8
+	rounds := c.Sz(150, 1500)
+	fs := memfs.New()
+	fs.NoWalkGetAttr = true
+	for i := 0; i < rounds; i++ {
+		fs.MkPath(fmt.Sprintf("/d/f%04d", i), 0100644, "x")
+	}
+	srv := p9.NewServer(fs)
+	var conns []*sess
+	for k := 0; k < K; k++ {
+		s, vr := newSess(srv, 1<<16, v7)
+		if !vr.OK || s.attach(0, "").Errno() != 0 {
+			c.Inconclusive("C07 first-walks setup")
+			return
+		}
+		conns = append(conns, s)
+	}
+	defer func() {
+		for _, s := range conns {
+			s.P.Close()
+		}
+	}()
+	for round := 0; round < rounds; round++ {
+		name := fmt.Sprintf("f%04d", round)
+		path := "/d/" + name
+		c.Begin("C07 simultaneous first walks " + name)
+		g := fs.Hold(memfs.Match{Method: "Walk", Name: "d"}, K)
+		from := make([]int, K)
+		for k, s := range conns {
+			from[k] = s.P.NReplies()
+			s.P.Send(wire.Twalk, 700, u(0), u(1), []string{"d", name})
+		}
+		if o, d := g.WaitParked(K); o != quiesce.CondMet {
+			g.Release()
+			hang(c, o, d, "C07:first-walks:walks-not-served-concurrently", len(g.Parked()))
+			return
+		}
+		g.Release()
+		ok := true
+		for k, s := range conns {
+			r, got, o, d := s.P.WaitTag(700, from[k])
+			if !got {
+				hang(c, o, d, "C07:first-walks:walk-unanswered", nil)
+				return
+			}
+			if r.Msg.Type != wire.Rwalk {
+				ok = false
+			}
+		}
+		if !ok {
+			c.Inconclusive("C07 first-walks: a walk failed")
+			continue
+		}
+		fs.Overlaps()
+		for writer := 0; writer < 2; writer++ {
+			gs := fs.Hold(memfs.Match{Method: "SetAttr", Path: path}, 1)
+			w := conns[(round+writer*3)%K]
+			wf := w.P.NReplies()
+			w.P.Send(wire.Tsetattr, 701, u(1), u(1), u(0600), u(0), u(0), u(0), u(0), u(0), u(0), u(0))
+			if o, _ := gs.WaitParked(1); o != quiesce.CondMet {
+				gs.Release()
+				continue
+			}
+			before := fs.TotalCalls()
+			rf := make([]int, K)
+			for k, s := range conns {
+				if s == w {
+					continue
+				}
+				rf[k] = s.P.NReplies()
+				s.P.Send(wire.Tgetattr, 702, u(1), u(0x3fff))
+			}
+			// all readers must end up parked inside p9; wait for quiet (or for one to get through)
+			quiesce.WaitUntil(func() bool { return fs.TotalCalls() > before }, wd)
+			entered := fs.TotalCalls() - before
+			gs.Release()
+			w.P.WaitTag(701, wf)
+			for k, s := range conns {
+				if s != w {
+					s.P.WaitTag(702, rf[k])
+				}
+			}
+			for _, o := range fs.Overlaps() {
+				c.Violation("C07:overlap:fids-walked-simultaneously-to-one-new-name-do-not-exclude-each-other:"+o.A+"x"+o.B, map[string]any{"overlap": o.Desc, "round": round, "walkers": K, "readers_that_entered_while_SetAttr_parked": entered})
+			}
+		}
+		c.Case(fmt.Sprintf("first-walks:%d", round%16), true)
+		c.Count("simultaneous_first_walk_rounds", 1)
+		for _, s := range conns {
+			s.clunk(1)
 		}
 	}
 }
